@@ -353,6 +353,46 @@ impl Check {
         }
     }
 
+    /// `case` for many explicit cases, evaluated on WORKERS threads; results are
+    /// absorbed in input order, so the outcome does not depend on scheduling.
+    pub fn cases_par<T: Serialize + Sync>(&mut self, sub: &str, cases: &[T], f: impl Fn(&T, &mut Obs) -> CaseResult + Sync) {
+        if self.replay.is_some() {
+            return;
+        }
+        let next = std::sync::atomic::AtomicUsize::new(0);
+        let results: Mutex<Vec<(usize, Obs, CaseResult)>> = Mutex::new(vec![]);
+        std::thread::scope(|scope| {
+            for _ in 0..WORKERS.min(cases.len().max(1) as u32) {
+                let (next, results, f) = (&next, &results, &f);
+                std::thread::Builder::new()
+                    .stack_size(64 << 20)
+                    .spawn_scoped(scope, move || loop {
+                        let i = next.fetch_add(1, Ordering::Relaxed);
+                        if i >= cases.len() {
+                            break;
+                        }
+                        let mut obs = Obs::default();
+                        let r = match panics::catch(std::panic::AssertUnwindSafe(|| f(&cases[i], &mut obs))) {
+                            Ok(r) => r,
+                            Err(p) => Err(panic_failure(p)),
+                        };
+                        results.lock().unwrap().push((i, obs, r));
+                    })
+                    .unwrap();
+            }
+        });
+        let mut results = results.into_inner().unwrap();
+        results.sort_by_key(|r| r.0);
+        for (i, obs, r) in results {
+            // reuse the sequential path for bookkeeping
+            let mut obs = Some(obs);
+            self.case(sub, &cases[i], |_, o| {
+                *o = obs.take().unwrap();
+                r
+            });
+        }
+    }
+
     fn record_violation(&mut self, sub: &str, case: Value, fl: Failure) {
         // one violation per (sub, sig) is enough
         if self
